@@ -314,7 +314,7 @@ func init() {
 		Doc:  "paired in/out adjacency updates, copy freshness, reverse view, purity of read-only methods (package graph)",
 		Run:  runMirror,
 		Floor: map[string]int{
-			"MIRROR-EDGE": 2, "MIRROR-DEL": 2, "MIRROR-REMOVE": 5, "MIRROR-ADD": 4, "COPY": 3, "REVERSE": 3, "PURITY": 8, "MIRROR-KEY": 4,
+			"MIRROR-EDGE": 2, "MIRROR-DEL": 2, "MIRROR-REMOVE": 5, "MIRROR-ADD": 4, "COPY": 4, "REVERSE": 3, "PURITY": 8, "MIRROR-KEY": 4,
 		},
 	})
 }
@@ -641,6 +641,44 @@ func runMirror(c *Ctx) {
 				}
 				c.R.Add("COPY", "Copy|hash", name, p.Pos(f.Pos()), okh, "hash entries are stored into the fresh copy only", whyh)
 			}
+			// none of the copy's three tables is the receiver's own map: a table assigned as a whole must not come from a
+			// field of the receiver (`g2.hash = g.hash` shares the vertex table between the copy and the original)
+			shared := ""
+			p.RegionInstrs(f, func(in ssa.Instruction) {
+				st, ok := in.(*ssa.Store)
+				if !ok {
+					return
+				}
+				fr, ok := core.AsFieldAddr(st.Addr)
+				if !ok || fr.Owner != "graph.Graph" || !(fr.Field == gf.hash || fr.Field == gf.out || fr.Field == gf.in) {
+					return
+				}
+				// what is stored, as seen from Copy: a parameter of a shared constructor is bound at the call made from
+				// Copy's own region (Reverse may hand the same constructor the receiver's maps on purpose)
+				vals := []ssa.Value{st.Val}
+				if prm, isPrm := core.Strip(st.Val).(*ssa.Parameter); isPrm && prm.Parent() != f {
+					vals = nil
+					h := prm.Parent()
+					for _, cs := range p.Callers(h) {
+						if cs.Parent() == f || p.InRegion(core.Outer(cs.Parent()), f) && core.Outer(cs.Parent()) != h {
+							for i, q := range h.Params {
+								if q == prm && i < len(cs.Common().Args) {
+									vals = append(vals, cs.Common().Args[i])
+								}
+							}
+						}
+					}
+				}
+				for _, v0 := range vals {
+					for _, sv := range core.Sources(v0) {
+						if src, ok := core.AsFieldLoad(sv); ok && src.Owner == "graph.Graph" {
+							shared = fr.Field + " assigned from " + core.Path(sv) + " at " + p.InstrPos(st)
+						}
+					}
+				}
+			})
+			c.R.Add("COPY", "Copy|no-table-shared", name, p.Pos(f.Pos()), shared == "",
+				"no table of the copy (adjacency maps, vertex table) is a map taken over from another graph", ternary(shared == "", "every table is built for the copy", shared))
 			// returns the fresh graph
 			for _, r := range core.Returns(f) {
 				ok := len(r.Results) == 1 && p.FreshIn(r.Results[0]) && core.Root(r.Results[0]) != recv
